@@ -165,11 +165,12 @@ def r2(run, db):
         return any(r["k"] == "call" and r["call"].is_("ActorProperties::set_status") for r in s["subject"])
     def on_param(s):
         return any(r["k"] == "arg" and r["local"] == 2 for r in s["subject"])
-    eq = [s for s in sts if s["op"] == "==" and s["const"] == "Stopped" and on_param(s)]
-    lt = [s for s in sts if s["op"] == "<" and s["const"] == "Stopped" and prev_from_rmw(s)]
-    run.check(any(s["true_edge"] and f.edge_dominates(s["true_edge"], c.site) for s in eq), "guard:status==Stopped", "broadcast guarded by `status == Stopped` on the requested status", "broadcast not guarded by status == Stopped", c.where())
-    run.check(any(s["true_edge"] and f.edge_dominates(s["true_edge"], c.site) for s in lt), "guard:previous<Stopped", "broadcast elected by `previous < Stopped` where previous is the value returned by the atomic RMW",
-              "broadcast not elected by the RMW's previous value (every set_status(Stopped) would notify / or none)", c.where())
+    gp = status_gates_at(f, c.site, subject=on_param)
+    gr = status_gates_at(f, c.site, subject=prev_from_rmw)
+    run.check(bool(gp) and admitted_statuses(gp) == ["Stopped"], "guard:status==Stopped", "broadcast reachable only when the requested status is Stopped (%s)" % show_gates(gp),
+              "broadcast reachable for requested status %s" % (admitted_statuses(gp) if gp else "any (no guard)"), c.where())
+    run.check(bool(gr) and admitted_statuses(gr) == STATUS_ORDER[:-1], "guard:previous<Stopped", "broadcast elected by the atomic RMW's previous value being below Stopped (%s)" % show_gates(gr),
+              "broadcast not elected by the RMW's previous value being < Stopped (admits %s): every set_status(Stopped) would notify / or none" % (admitted_statuses(gr) if gr else "no guard"), c.where())
     # inner set_status = fetch_max returning previous
     inner = [x for x in db.crate_fns("ractor") if x.id.endswith("ActorProperties::set_status")]
     if inner:
@@ -223,9 +224,12 @@ def r5(run, db):
     for c in cleanup:
         nm = c.name.split("::")[-1]
         run.check(f.dominates(rmw[0].site, c.site), "published-first:" + nm, "%s runs after the status RMW (status published before the reverse indexes are drained)" % nm, "%s can run before the status is published" % nm, c.where())
-        run.check(any(s["true_edge"] and f.edge_dominates(s["true_edge"], c.site) for s in ge), "guard>=Stopping:" + nm, "%s guarded by status >= Stopping" % nm, "%s not guarded by status >= Stopping" % nm, c.where())
-        run.check(any(s["true_edge"] and f.edge_dominates(s["true_edge"], c.site) for s in lt), "elected-once:" + nm, "%s elected by previous < Stopping (RMW's return value): runs once" % nm,
-                  "%s is not elected by the RMW's previous value: the cleanup can run twice and hit a successor's registration" % nm, c.where())
+        gp = status_gates_at(f, c.site, subject=lambda s: any(r["k"] == "arg" and r["local"] == 2 for r in s["subject"]))
+        gr = status_gates_at(f, c.site, subject=lambda s: any(r["k"] == "call" and r["call"].bb == rmw[0].bb for r in s["subject"]))
+        run.check(bool(gp) and admitted_statuses(gp) == ["Stopping", "Stopped"], "guard>=Stopping:" + nm, "%s reachable exactly when the requested status is Stopping or Stopped" % nm,
+                  "%s reachable for requested status %s" % (nm, admitted_statuses(gp) if gp else "any (no guard)"), c.where())
+        run.check(bool(gr) and admitted_statuses(gr) == STATUS_ORDER[:5], "elected-once:" + nm, "%s elected by the RMW's previous value being below Stopping: runs once, on the first transition" % nm,
+                  "%s is not elected by the RMW's previous value being < Stopping (admits %s): the cleanup can run twice and hit a successor's registration, or not at all" % (nm, admitted_statuses(gr) if gr else "no guard"), c.where())
     # unregister takes this actor's own name / id
     for c in cleanup:
         if c.matches(r"registry::unregister$"):
